@@ -278,3 +278,23 @@ def giant_entry(rs, rk):
     sp_g = {"kind": "tauleap", "dt": dtg, "t_sample": [0.0, 2.5 * dtg, 4.5 * dtg], "t_max": None, "policy": "on_iteration",
             "interval": dtg, "seed": rk.bits(31), "isp": "none", "ongrid": False, "steps": 5}
     return rerender_plain({"phys": {"spec": spec_g, "sp": sp_g, "kind": "tauleap"}})
+
+
+def blowup_entry(rs, rk):
+    """tau-leap script of an autocatalytic network (2 A -> 3 A): the population blows up within a few steps, per-step
+    firing numbers leave every integer range, amounts become infinite - and every call still returns"""
+    vol = (rs.loguniform(0.5, 2.0) * 1e-6) ** 3
+    nc_ = rs.choice([1, 2])
+    x0 = float(rs.randint(4, 20))
+    kdt = rs.uniform(0.1, 0.5)               # k/V * dt per pair
+    dtb = rs.loguniform(0.01, 1.0)
+    kf = kdt / dtb * vol
+    spec_b = {"envs": ["cyt"],
+              "species": [{"label": "A", "D": [rs.loguniform(0.02, 0.5) * 1e-12 if nc_ > 1 else 0.0], "dens": [0.0], "chst": [0]}],
+              "reactions": [{"label": None, "sub": {"A": 2}, "prod": {"A": 3}, "kf": [kf], "kr": [0.0]}],
+              "space": {"type": "grid", "w": nc_, "h": 1, "d": 1, "bc": ["reflecting"] * 3, "cell_env": [0] * nc_, "vol": vol},
+              "state": [x0] * nc_, "chem": None}
+    nst = rs.randint(25, 60)
+    sp_b = {"kind": "tauleap", "dt": dtb, "t_sample": [0.0, (nst - 0.5) * dtb], "t_max": None, "policy": rs.choice(["on_iteration", "on_t_sample"]),
+            "interval": dtb, "seed": rk.bits(31), "isp": "none", "ongrid": False, "steps": nst}
+    return rerender_plain({"phys": {"spec": spec_b, "sp": sp_b, "kind": "tauleap"}})
